@@ -148,6 +148,22 @@ def run(model, col, tier):
     col.check(drains, "R16.3", f"{IR}::Linker.Link processes imports of imports",
               "imports are processed until none is pending (loading a module can add imports)",
               "Link makes a single pass over the pending imports: imports of imported modules are not loaded", IR, link)
+    # within one round, the pending set may be reset only *before* modules are added (AddModule adds their imports to it)
+    for w in wl:
+        evs_ = []
+        for n in ast.walk(w):
+            if isinstance(n, ast.Assign) and isinstance(n.targets[0], ast.Attribute) and n.targets[0].attr == pending:
+                evs_.append((n.lineno, "reset", n))
+            elif isinstance(n, ast.Call) and last_attr(n) == "clear" and isinstance(n.func.value, ast.Attribute) and n.func.value.attr == pending:
+                evs_.append((n.lineno, "reset", n))
+            elif isinstance(n, ast.Call) and last_attr(n) == "AddModule":
+                evs_.append((n.lineno, "add", n))
+        evs_.sort(key=lambda t: t[0])
+        kinds_ = [k for _, k, _ in evs_]
+        late = "add" in kinds_ and "reset" in kinds_[kinds_.index("add"):]
+        col.check(not late, "R16.3", f"{IR}::Linker.Link keeps imports discovered during a round",
+                  "the pending set is reset before the round's modules are added, so their imports stay pending",
+                  "the pending-import set is reset after AddModule has added the imports of the modules loaded in this round: imports of imported modules are discarded and never loaded", IR, w)
     addcalls = [c for c in ast.walk(link) if isinstance(c, ast.Call) and last_attr(c) == "AddModule"]
     col.check(bool(addcalls) and any("Load" in unparse(c.args[0]) for c in addcalls if c.args), "R16.3", f"{IR}::Linker.Link adds what it loads", "self.AddModule(loader.Load(name))", None, IR, link)
     ret = [unparse(r.value) for r in ast.walk(link) if isinstance(r, ast.Return)]
